@@ -488,18 +488,19 @@ impl FieldParser {
             .checked_div(usize::from(template.get_total_size()))
             .ok_or_else(|| NomErr::Error(NomError::new(input, ErrorKind::Verify)))?;
 
-        let (remaining, fields) = (0..record_count).fold(
-            (input, Vec::new()), // Initial accumulator: (fields, remaining)
-            |(remaining, mut fields), _| {
-                let (new_remaining, data_field) =
-                    match Self::parse_data_field(remaining, template.clone()) {
-                        Ok((remaining, data_field)) => (remaining, data_field),
-                        Err(_) => return (remaining, fields),
-                    };
-                fields.push(data_field);
-                (new_remaining, fields)
-            },
-        );
+        let mut remaining = input;
+        let mut fields = Vec::new();
+        for _ in 0..record_count {
+            // A record that cannot be decoded ends the flowset: nothing after it can succeed,
+            // the input it is read from does not change.
+            match Self::parse_data_field(remaining, &template) {
+                Ok((new_remaining, data_field)) => {
+                    remaining = new_remaining;
+                    fields.push(data_field);
+                }
+                Err(_) => break,
+            }
+        }
 
         Ok((remaining, fields))
     }
@@ -524,10 +525,10 @@ impl FieldParser {
     /// # Errors
     ///
     /// The function returns an error if parsing any individual field fails according to its type-defined parser.
-    fn parse_data_field(
-        mut input: &[u8],
-        template: Template,
-    ) -> IResult<&[u8], BTreeMap<usize, V9FieldPair>> {
+    fn parse_data_field<'a>(
+        mut input: &'a [u8],
+        template: &Template,
+    ) -> IResult<&'a [u8], BTreeMap<usize, V9FieldPair>> {
         let mut data_field = BTreeMap::new();
 
         for (field_index, template_field) in template.fields.iter().enumerate() {
